@@ -37,25 +37,12 @@ Theorem C11_locktime_is_max_of_selected_kind : forall p, locktime p = spec_lockt
 Proof. exact locktime_is_max_of_selected_kind. Qed.
 Print Assumptions C11_locktime_is_max_of_selected_kind.
 
-(* all-or-nothing: a multi-part operation that returns an error leaves the packet unchanged (any packet;
-   adding inputs/outputs, issuance, reissuance, the three signers, finalize-all) *)
+(* all-or-nothing: a multi-part operation that returns an error leaves the packet unchanged (any packet; adding
+   inputs/outputs, issuance, reissuance, the three signers, the blinder, finalize-all) *)
 Theorem C11_multi_part_ops_atomic : forall p o,
-  snd (step p o) = Err -> is_multi_part o = true -> is_blind o = false -> fst (step p o) = p.
+  snd (step p o) = Err -> is_multi_part o = true -> fst (step p o) = p.
 Proof. exact multi_part_ops_atomic. Qed.
 Print Assumptions C11_multi_part_ops_atomic.
-
-(* ... the blinder: unchanged except for the range proof Input.GetUtxo copies into the stored previous outputs *)
-Theorem C11_blinder_atomic_partial : forall p a, snd (step p (OBlind a)) <> Ok ->
-  exists auxs, fst (step p (OBlind a)) = upd p auxs (p_outs p) (g_scalars p)
-               /\ map forget auxs = map forget (p_auxs p).
-Proof. exact blinder_atomic_partial. Qed.
-Print Assumptions C11_blinder_atomic_partial.
-
-Theorem C11_blinder_atomic_refuted :
-  exists ins outs fb p0 ops, init ins outs fb = IOk p0 /\
-    snd (step (run p0 ops) (OBlind blind_refused)) = Err /\ fst (step (run p0 ops) (OBlind blind_refused)) <> run p0 ops.
-Proof. exact blinder_atomic_refuted. Qed.
-Print Assumptions C11_blinder_atomic_refuted.
 
 (* an already finalized input is not altered by AddInputs, AddOutputs, the three signers and the finalizers *)
 Theorem C11_finalized_inputs_frozen_partial : forall p o n a,
